@@ -172,6 +172,24 @@ def classify(ck, records, verdicts, label, stats):
                     ck.drift.append({"what": "panic while applying an offer (C07 territory)", "cfg": r["cfg"], "detail": na})
                 continue
             stats["accepted"] += 1
+            # non-vacuity: how often each rule had something to say about an accepted record
+            ex = stats.setdefault("exercised", {})
+            osecs, asecs = r["offer"]["secs"], r["answer"]["secs"]
+
+            def bump(k, cond):
+                if cond:
+                    ex[k] = ex.get(k, 0) + 1
+            bump("PtSubset: answer lists payload types", any(a["pts"] for a in asecs))
+            bump("RtxEcho: answer carries an RTX association", any(a["rtx"] for a in asecs))
+            bump("RtxEcho: offered RTX not echoed", any(o["rtx"] and not a["rtx"] for o, a in zip(osecs, asecs)))
+            bump("ExtSubset: answer carries extmap lines", any(a["ext"] for a in asecs))
+            bump("DirCompatible: offer not sendrecv", any(o["dir"] != "sendrecv" for o in osecs))
+            bump("MuxOffered: offer section without rtcp-mux", any(o["kind"] in ("audio", "video") and not o["mux"] for o in osecs))
+            bump("BundleOffered: offer has a group", bool(r["offer"]["bundle"]))
+            bump("BundleOffered: offer groups only some sections", v["ctx"]["partial"])
+            bump("SetupAcceptable: offer active/passive", any(o["setup"] in ("active", "passive") for o in osecs))
+            bump("SameMids: offer without mids", v["ctx"]["midless"])
+            bump("Same*: more than one section", len(osecs) > 1)
             if r.get("roundtrip_reordered"):
                 stats["roundtrip_reordered"] += 1
             if not v["failed"]:
@@ -201,14 +219,16 @@ def run(tier):
             exhaustive = exhaustive and res["finished"]
         records = record(ck, offers, tag, jobs)
         verdicts = validate(ck, records, tag, sc["label"])
-        before = dict(stats)
+        before = {k: v for k, v in stats.items() if isinstance(v, int)}
         classify(ck, records, verdicts, sc["label"], stats)
-        ck.notes.append({"label": sc["label"], "offers": n, **{k: stats[k] - before[k] for k in stats}})
+        ck.notes.append({"label": sc["label"], "offers": n,
+                         **{k: stats[k] - before[k] for k in stats if isinstance(stats[k], int)}})
         with open(offers) as f:
             for j, line in enumerate(f):
                 if j in (0, 700, 4000) and len(ck.cov["samples"]) < 6:
                     ck.cov["samples"].append(json.loads(line))
     check_witnesses(ck)
+    ck.notes.append({"rules_exercised_on_accepted_records": stats.get("exercised", {})})
     if stats["roundtrip_reordered"]:
         ck.drift.append({"what": "parse(print(d)) equals d only up to the relative order of attributes with different "
                                  "keys (transport attributes are printed first)", "records": stats["roundtrip_reordered"]})
@@ -266,3 +286,56 @@ def replay(path):
     classify(ck, records, verdicts, "replay", stats)
     ck.cov.update(traces_validated_against_impl=stats["accepted"], evaluations=1, samples=[case])
     ck.finish()
+
+
+def selftest():
+    """Negative controls on the machinery:
+    (i) the reference answerer switched to the pinned code's behaviour (Deviations = {AnswerLocalList}) violates
+        ReferenceValid in TLC (the relation is not vacuous);
+    (ii) corrupting one field of a recorded (valid) answer makes Trace_Answer reject the record under the matching rule."""
+    ck = vlib.Check(PID + "-selftest", "quick")
+    ok = True
+    sc = scen("selftest", 1, SMALL, Compats=("Standard",), Pres=("none",), Negs=("first",), Modes=("WebRtc",))
+    cfg = os.path.join(vlib.SPEC, "MC_Answer_selftest.gen.cfg")
+    write_cfg(cfg, sc, SANITY, deviations='{"AnswerLocalList"}')
+    res = vlib.tlc("MC_Answer", os.path.basename(cfg), timeout=300, workers=2, tag="MC_Answer_selftest")
+    os.remove(cfg)
+    hit = any("ReferenceValid" in l and "violated" in l for l in res["errors"] + res["raw_tail"])
+    print(f"selftest: Deviations={{AnswerLocalList}} violates ReferenceValid: {hit}")
+    ok = ok and hit
+    vlib.build_harness(["answer"])
+    offers, n, _ = gen_offers(ck, sc, "selftest")
+    records = record(ck, offers, "selftest", 4)
+    rows = vlib.read_ndjson(records)
+    verdicts = validate(ck, records, "selftest", "selftest")
+    good = [r for r in rows if r["accepted"] and not verdicts[r["i"]]["failed"] and r["answer"]["secs"][0]["kind"] == "video"
+            and r["answer"]["secs"][0]["ext"] and r["offer"]["secs"][0]["dir"] == "sendonly"]
+    if not good:
+        raise vlib.ToolError("selftest: no valid video record with extensions to corrupt")
+    base = good[0]
+
+    def corrupt(name, fn, rule):
+        nonlocal ok
+        r = json.loads(json.dumps(base))
+        fn(r["answer"])
+        p = os.path.join(ck.dir, f"selftest_{name}.ndjson")
+        vlib.write_ndjson(p, [r])
+        v = validate(ck, p, f"selftest_{name}", name)[r["i"]]
+        hit = rule in v["failed"]
+        print(f"selftest: corrupted record ({name}) rejected under {rule}: {hit} (failed={v['failed']})")
+        ok = ok and hit
+
+    corrupt("extra_pt", lambda a: a["secs"][0]["pts"].append([127, "vp9/90000"]), "PtSubset")
+    corrupt("pt_other_codec", lambda a: a["secs"][0]["pts"].__setitem__(0, [a["secs"][0]["pts"][0][0], "h265/90000"]), "PtSubset")
+    corrupt("rtx_not_offered", lambda a: a["secs"][0]["rtx"].append([120, a["secs"][0]["pts"][0][0]]), "RtxEcho")
+    corrupt("ext_other_id", lambda a: a["secs"][0]["ext"].__setitem__(0, [a["secs"][0]["ext"][0][0] + 5, a["secs"][0]["ext"][0][1]]), "ExtSubset")
+    corrupt("ext_duplicate_id", lambda a: a["secs"][0]["ext"].append([a["secs"][0]["ext"][0][0], "toffset"]), "ExtInjective")
+    corrupt("dir", lambda a: a["secs"][0].__setitem__("dir", "sendrecv"), "DirCompatible")
+    corrupt("mid", lambda a: a["secs"][0].__setitem__("mid", "zz"), "SameMids")
+    corrupt("kind", lambda a: a["secs"][0].__setitem__("kind", "audio"), "SameKinds")
+    corrupt("extra_section", lambda a: a["secs"].append(a["secs"][0]), "SameCount")
+    corrupt("bundle", lambda a: a["bundle"].append("zz"), "BundleOffered")
+    corrupt("setup", lambda a: a["secs"][0].__setitem__("setup", "actpass"), "SetupAcceptable")
+    corrupt("mux", lambda a: a["secs"][0].__setitem__("mux", not base["offer"]["secs"][0]["mux"] or True), "MuxOffered") \
+        if not base["offer"]["secs"][0]["mux"] else None
+    raise SystemExit(0 if ok else 2)
